@@ -365,28 +365,27 @@ def validate_trace(module, cfg, trace_path, shards=4, heap="3g", timeout=1800, w
     if n == 0:
         raise Infra("empty trace %s" % trace_path)
     shards = max(1, min(shards, (n + 199) // 200))
-    per = (n + shards - 1) // shards
-    jobs, offs = [], []
+    jobs, maps = [], []
     for s in range(shards):
-        part = lines[s * per:(s + 1) * per]
-        if not part:
+        idx = list(range(s, n, shards))          # round-robin: balances heterogeneous traces
+        if not idx:
             continue
         p = os.path.join(scratch(), "shard-%s-%d-%d.ndjson" % (module, os.getpid(), s))
         with open(p, "w") as f:
-            f.write("\n".join(part) + "\n")
+            f.write("\n".join(lines[i] for i in idx) + "\n")
         jobs.append(dict(module=module, cfg=cfg, data={trace_name: p}, heap=heap,
                          timeout=timeout, workers=workers))
-        offs.append((s * per, len(part)))
+        maps.append(idx)
     results = tlc_parallel(jobs, max_procs=min(len(jobs), max(1, NCPU // 2)))
     rejects = []
-    for r, (off, cnt) in zip(results, offs):
+    for r, idx in zip(results, maps):
         if r.violated:
             raise Infra("trace spec %s raised %s (trace specs only print rejects)" % (module, r.violated))
-        if r.distinct != cnt + 1:
+        if r.distinct != len(idx) + 1:
             raise Infra("trace spec %s judged %d of %d events (vacuous or broken trace)" % (
-                module, r.distinct - 1, cnt))
+                module, r.distinct - 1, len(idx)))
         for pr in r.printed:
             if isinstance(pr, dict) and "reject" in pr:
-                rejects.append((off + int(pr["reject"]) - 1, pr))
+                rejects.append((idx[int(pr["reject"]) - 1], pr))
     rejects.sort(key=lambda x: x[0])
     return results, rejects, lines
